@@ -250,6 +250,21 @@ def sc_fullsimplify(rng):
     return {'conds': conds}, integral_str(b, lo, hi), [{'name': rng.choice(['FullSimplify', 'Simplify'])}], 'simplify/' + tag
 
 
+def sc_even_root(rng):
+    """powers of powers whose collapse needs a sign condition: (f^2)^(p/2), sqrt(f^2), ((f)^4)^(1/4) with f a linear image
+    of x (or a trigonometric function) that changes sign on the range"""
+    lin = rng.choice(['x', 'x', 'x - 1', 'x + 1', 'x - 2', '2 * x', '-x', 'x - 1/2', 'cos(x)', 'sin(x)'])
+    form = rng.choice(['((%s) ^ 2) ^ (1/2)', '((%s) ^ 2) ^ (3/2)', '((%s) ^ 2) ^ (3/2)', '((%s) ^ 4) ^ (1/4)', '((%s) ^ 4) ^ (1/2)',
+                       'sqrt((%s) ^ 2)', '((%s) ^ 2) ^ (1/2) * x', '1 + ((%s) ^ 2) ^ (5/2)', '((%s) ^ 6) ^ (1/2)'])
+    body = form % lin
+    lo, hi = rng.choice([('-2', '1'), ('-2', '-1'), ('-1', '2'), ('-3', '-1'), ('0', '3'), ('-1', '1'), ('1', '3'), ('-3', '0'),
+                         ('0', 'pi'), ('pi / 2', 'pi'), ('-pi', '0')])
+    chain = [{'name': rng.choice(['FullSimplify', 'FullSimplify', 'Simplify'])}]
+    if rng.random() < 0.3:
+        chain = [{'name': 'Substitution', 'var_name': 'u', 'var_subst': sh(rng.choice(['x - 2', 'x + 1', '2 * x', '-x']))}] + chain
+    return {'conds': []}, integral_str(body, lo, hi), chain, 'evenroot'
+
+
 def sc_identity_eval(rng):
     b, lo, hi, conds, tag = family(rng)
     return {'conds': conds}, integral_str(b, lo, hi), [{'name': 'DefiniteIntegralIdentity'}, {'name': 'FullSimplify'}], 'table/' + tag
@@ -598,7 +613,7 @@ def sc_misc(rng):
     return {'conds': list(conds)}, e, [{'name': n} for n in names], 'misc'
 
 
-SCENARIOS = [sc_misc, sc_linearity, sc_fullsimplify, sc_identity_eval, sc_substitution, sc_substitution_targeted, sc_subst_inverse, sc_parts,
+SCENARIOS = [sc_misc, sc_linearity, sc_fullsimplify, sc_even_root, sc_identity_eval, sc_substitution, sc_substitution_targeted, sc_subst_inverse, sc_parts,
              sc_parts_indef, sc_split, sc_expand, sc_elim_inf, sc_indefinite, sc_equation, sc_algebra, sc_power, sc_identity, sc_limit,
              sc_series, sc_deriv, sc_eq_rules, sc_defs, sc_lemma, sc_substitution, sc_substitution_targeted, sc_algebra, sc_equation]
 
@@ -941,6 +956,11 @@ def aux_one(vctx, mon, check, ctxspec, e_json, extra=None):
             head = deriv_culprit(e_sh, var, ctx, conds, rng, mon.budget, mon.per_eval)
             if head:
                 key = 'deriv:wrong-derivative-of-' + head
+            inv = {'atan': 'tan', 'acot': 'cot', 'asin': 'sin', 'acos': 'cos'}
+            if any(u[0] == 'f' and u[1] in inv and u[2] and u[2][0][0] == 'f' and u[2][0][1] == inv[u[1]] for u in O.subterms(e_sh)):
+                # the derivative is normalised on the way: the recorded 'inverse function of the function collapsed
+                # outside the principal range' finding, seen through deriv
+                key = 'deriv:inverse-trig-of-trig-collapsed-outside-principal-range'
             aux_violation(vctx, key, 'rules.deriv(%s, %s) = %s disagrees with the numerical derivative; %s' % (
                 var, O.show(e_sh)[:150], str(d)[:150], json.dumps(res['draws'][:2], default=str)[:300]), check, ctxspec, e_json, extra,
                 more={'output_str': str(d), 'oracle': res})
@@ -1069,7 +1089,17 @@ def normalize_culprit(e_sh, conds_obj, conds, rng, budget, per_eval):
         except Exception:
             continue
         if r2['verdict'] == 'violated':
-            return (t[1] if t[0] in ('f', 'op') else t[0]), r2.get('what'), t, nt_sh
+            head = t[1] if t[0] in ('f', 'op') else t[0]
+            # the recorded root cause 'inverse function of the function collapsed outside the principal range'
+            # sometimes fires only inside a larger term (atan(tan x) alone is left as it is): name it by the inner
+            # composition, not by whatever operator happens to sit above it
+            inv = {'atan': 'tan', 'acot': 'cot', 'asin': 'sin', 'acos': 'cos'}
+            for u in sorted({u for u in O.subterms(t) if u[0] == 'f' and u[1] in inv}, key=O.size):
+                if u[2] and u[2][0][0] == 'f' and u[2][0][1] == inv[u[1]] and not any(
+                        w[0] == 'f' and w[1] in inv and w[2] and w[2][0][0] == 'f' and w[2][0][1] == inv[w[1]] for w in O.subterms(nt_sh)):
+                    head = u[1]
+                    break
+            return head, r2.get('what'), t, nt_sh
     return None
 
 
